@@ -1,8 +1,11 @@
 /-
-`Sim` (see `Lemmas/PairAllView.lean`) for the APPLICATION CALLS of the endpoint model: every stimulus except
+`SimX` (see `Lemmas/PairAllView.lean`) for the APPLICATION CALLS of the endpoint model: every stimulus except
 a delivery (`write`, `read`, `shutdown`, `dropStream`, `accept`, the datagram and bind calls, `dropMux`,
 `sinkRoom`, `cancelOpen`, `open`).  An application call never touches the inbox and accepts nothing into a
-stream object: the inbox `l` is arbitrary and stays, the accept log is empty.
+stream object: the inbox `l` is arbitrary and stays, the accept log is empty.  The only records are those of
+the successful writes on flow `x` (`xlOfWrote x (wroteBy …)`): a `Push x` is queued by a write through a
+stream object carrying `x` whose write side is open, and by nothing else; a `Finish x` is queued by the
+shutdown of such an object (which closes its write side) or by accepting a held bind request with id `x`.
 Core Lean only.
 -/
 import Penguin.Lemmas.PairAllSimFrame
@@ -12,30 +15,103 @@ open Penguin.Mux
 
 variable {x j : Nat}
 
-/-! ### Queuing an `Acknowledge` / `Push` for the flow of an existing stream object -/
+/-! ### Queuing an `Acknowledge` / `Push` / `Finish` for the flow of an existing stream object -/
 
 theorem countP_pos_of_get (objs : List Obj) (i : Nat) (o : Obj) (h : objs[i]? = some o) (hf : o.fid = x) :
     0 < objs.countP (fun o => o.fid == x) :=
   List.countP_pos_iff.mpr ⟨o, List.mem_of_getElem? h, by simp [hf]⟩
 
-/-- A frame that is not a `Connect` is queued; if it is an `Acknowledge x` or a `Push x`, then a stream object
-    carrying `x` exists. -/
-theorem Sim.enqObj {l : List WsIn} (e : EP) (f : Frame) (fid i : Nat)
-    (ho : ∃ o', e.objs[i]? = some o' ∧ o'.fid = fid) (hc : isConn x (.frame f) = false)
-    (hk : isAck x (.frame f) = true ∨ isPush x (.frame f) = true → fid = x) :
-    Sim x j l e l (e.enqFrame f) [] [] := by
-  refine Sim.enq e _ hc (fun h => ?_)
+/-- A stream object carrying `x` whose write side is open is counted by `nw`. -/
+theorem nw_pos_of_get (objs : List Obj) (i : Nat) (o : Obj) (h : objs[i]? = some o) (hf : o.fid = x)
+    (hs : o.finishSent = false) : 0 < objs.countP (fun o => o.fid == x && !o.finishSent) :=
+  List.countP_pos_iff.mpr ⟨o, List.mem_of_getElem? h, by simp [hf, hs]⟩
+
+/-- An `Acknowledge` for the flow of an existing stream object is queued. -/
+theorem Sim.enqAck {l : List WsIn} (e : EP) (fid n i : Nat) (ho : ∃ o', e.objs[i]? = some o' ∧ o'.fid = fid) :
+    Sim x j l e l (e.enqFrame (.acknowledge fid n)) [] [] := by
+  refine Sim.enq e _ rfl rfl rfl rfl (fun h => ?_)
   obtain ⟨o', ho', hf'⟩ := ho
-  exact countP_pos_of_get e.objs i o' ho' (hf'.trans (hk h))
+  exact countP_pos_of_get e.objs i o' ho' (hf'.trans (by simpa [isAck] using h))
+
+/-- A write through a stream object carrying `x` whose write side is open queues a `Push x`. -/
+theorem SimX.enqPush {l : List WsIn} (e : EP) (d : Bytes) (i : Nat) (o : Obj) (ho : e.objs[i]? = some o)
+    (hf : o.fid = x) (hs : o.finishSent = false) (hoc : e.outClosed = false) :
+    SimX x j l e l (e.enqFrame (.push x d)) [] [] [.wrote d] := by
+  refine SimX.one (AStep.enqPush (view x j e l) d hoc (nw_pos_of_get e.objs i o ho hf hs)) ?_ rfl rfl rfl
+  simp [view, EP.enqFrame, EP.enq, hoc, canAcc, bindHeld]
 
 theorem modObj_get_fid (e : EP) (i : Nat) (g : Obj → Obj) (hg : ∀ o, (g o).fid = o.fid) (fid : Nat)
     (ho : ∃ o', e.objs[i]? = some o' ∧ o'.fid = fid) : ∃ o', (e.modObj i g).objs[i]? = some o' ∧ o'.fid = fid := by
   obtain ⟨o', ho', hf'⟩ := ho
   exact ⟨g o', by rw [modObj_get_self, ho']; rfl, (hg o').trans hf'⟩
 
+/-- An object update that keeps the `Sender` and the `Receiver` does not change what object `j` accepts. -/
+theorem canAcc_modObj_eq (e : EP) (i : Nat) (f : Obj → Obj) (h1 : ∀ o, (f o).senderAlive = o.senderAlive)
+    (h2 : ∀ o, (f o).rxOpen = o.rxOpen) : canAcc x j (e.modObj i f) = canAcc x j e := by
+  unfold canAcc canAccF
+  simp only [EP.modObj, setObj, List.getElem?_modify]
+  cases lookup e.flows x with
+  | none => rfl
+  | some s =>
+    cases s with
+    | requested r => rfl
+    | bindRequested r => rfl
+    | established k =>
+      simp only
+      by_cases hij : i = j
+      · subst hij; cases e.objs[i]? <;> simp [h1, h2]
+      · simp [hij]
+
+theorem rxOpenJ_modify_eq (objs : List Obj) (i : Nat) (f : Obj → Obj) (h2 : ∀ o, (f o).rxOpen = o.rxOpen) :
+    rxOpenJ j (objs.modify i f) = rxOpenJ j objs := by
+  simp only [rxOpenJ, List.getElem?_modify]
+  by_cases hij : i = j
+  · subst hij; cases objs[i]? <;> simp [h2]
+  · simp [hij]
+
+/-- An update of object `i` that makes a predicate false which held of it lowers the count by one. -/
+theorem countP_modify_dec (objs : List Obj) (i : Nat) (f : Obj → Obj) (p : Obj → Bool) (o : Obj)
+    (ho : objs[i]? = some o) (h1 : p o = true) (h2 : p (f o) = false) :
+    (objs.modify i f).countP p = objs.countP p - 1 := by
+  induction objs generalizing i with
+  | nil => simp at ho
+  | cons a r ih =>
+    cases i with
+    | zero =>
+      simp only [List.getElem?_cons_zero, Option.some.injEq] at ho
+      subst ho
+      have e1 : (a :: r).modify 0 f = f a :: r := by simp
+      rw [e1, List.countP_cons, List.countP_cons, h1, h2]
+      simp
+    | succ n =>
+      have ho' : r[n]? = some o := by simpa using ho
+      have hpos : 0 < r.countP p := List.countP_pos_iff.mpr ⟨o, List.mem_of_getElem? ho', h1⟩
+      have e1 : (a :: r).modify (n+1) f = a :: r.modify n f := by simp
+      rw [e1, List.countP_cons, List.countP_cons, ih n ho']
+      split <;> omega
+
+/-- The shutdown of a stream object carrying `x` whose write side is open, while the queue is open: its write
+    side closes and a `Finish x` is queued, in one step. -/
+theorem Sim.finShutdown {l : List WsIn} (e : EP) (i : Nat) (o : Obj) (f : Obj → Obj) (ho : e.objs[i]? = some o)
+    (hf : o.fid = x) (hs : o.finishSent = false) (hoc : e.outClosed = false) (f0 : ∀ o, (f o).fid = o.fid)
+    (f1 : ∀ o, (f o).senderAlive = o.senderAlive) (f2 : ∀ o, (f o).rxOpen = o.rxOpen)
+    (f3 : ∀ o, (f o).finishSent = true) :
+    Sim x j l e l ((e.modObj i f).enqFrame (.finish x)) [] [] := by
+  refine Sim.one (AStep.enqFinS (view x j e l) hoc (nw_pos_of_get e.objs i o ho hf hs)) ?_ rfl rfl
+  have hc : canAccF x j e.flows (e.objs.modify i f) = canAccF x j e.flows e.objs :=
+    canAcc_modObj_eq (x := x) (j := j) e i f f1 f2
+  have hr := rxOpenJ_modify_eq (j := j) e.objs i f f2
+  have hn := countP_modify_dec e.objs i f (fun o => o.fid == x && !o.finishSent) o ho (by simp [hf, hs])
+    (by simp [f3])
+  have hoc' : (e.modObj i f).outClosed = false := hoc
+  simp only [view, EP.enqFrame, EP.enq, hoc', Bool.false_eq_true, if_false]
+  simp [canAcc, hc, hoc, EP.modObj, setObj, hr, hn, countP_modify_fid _ _ _ _ f0, bindHeld]
+
 /-! ### The stream calls -/
 
-theorem Sim.appWrite {l : List WsIn} (e : EP) (h : Nat) (d : Bytes) : Sim x j l e l (appWrite e h d).1 [] [] := by
+/-- `poll_write`: the `Push` it queues is recorded if it is a `Push x`; no other branch records anything. -/
+theorem SimX.appWrite {l : List WsIn} (e : EP) (h : Nat) (d : Bytes) :
+    SimX x j l e l (appWrite e h d).1 [] [] (xlOfWrote x (wroteBy e (.write h d) (appWrite e h d).2)) := by
   unfold Mux.appWrite
   cases hh : e.handleObj h with
   | none => exact Sim.refl l e
@@ -45,29 +121,36 @@ theorem Sim.appWrite {l : List WsIn} (e : EP) (h : Nat) (d : Bytes) : Sim x j l 
     simp only
     split
     · exact Sim.modObj e _ _ (by sim_side) (by sim_side)
-    · split
-      · exact Sim.modObj e _ _ (by sim_side) (by sim_side)
-      · split
+    · rename_i hfs
+      have hfs' : o.finishSent = false := by simpa using hfs
+      split
+      · rename_i hd
+        simp only [wroteBy, hd, if_true, xlOfWrote_nil]
+        exact Sim.modObj e _ _ (by sim_side) (by sim_side)
+      · rename_i hd
+        split
         · exact Sim.modObj e _ _ (by sim_side) (by sim_side)
         · split
           · exact Sim.modObj e _ _ (by sim_side) (by sim_side)
-          · refine (Sim.modObj e _ _ (by sim_side) (by sim_side)).tr
-              (Sim.enqObj _ _ o.fid i (modObj_get_fid e i _ (by sim_side) o.fid ⟨o, ho, rfl⟩) rfl ?_)
-            intro hk
-            rcases hk with hk | hk
-            · cases hk
-            · simpa [isPush] using hk
+          · rename_i hoc
+            have hoc' : e.outClosed = false := by simpa using hoc
+            simp only [wroteBy, hd, hh, Bool.false_eq_true, if_false]
+            have g := Sim.modObj (x := x) (j := j) (l := l) e i (fun o => { o with credit := o.credit - 1, parked := false })
+              (by sim_side) (by sim_side)
+            by_cases hx : o.fid = x
+            · subst hx
+              refine (g.toX.trans (SimX.enqPush _ d i { o with credit := o.credit - 1, parked := false }
+                (by rw [modObj_get_self, ho]; rfl) rfl hfs' hoc')).lbl rfl rfl ?_
+              simp [xlOfWrote]
+            · refine (g.tr (Sim.enqFrame _ _ rfl rfl (by simp [isPush, hx]))).toX.rec ?_
+              simp [xlOfWrote, hx]
 
 theorem Sim.ackStep {l : List WsIn} (e : EP) (i : Nat) (o : Obj) (ho : ∃ o', e.objs[i]? = some o' ∧ o'.fid = o.fid) :
     Sim x j l e l (ackStep e i o) [] [] := by
   unfold Mux.ackStep
   split
-  · refine (Sim.modObj e _ _ (by sim_side) (by sim_side)).tr
-      (Sim.enqObj _ _ o.fid i (modObj_get_fid e i _ (by sim_side) o.fid ho) rfl ?_)
-    intro hk
-    rcases hk with hk | hk
-    · simpa [isAck] using hk
-    · cases hk
+  · exact (Sim.modObj e _ _ (by sim_side) (by sim_side)).tr
+      (Sim.enqAck _ o.fid _ i (modObj_get_fid e i _ (by sim_side) o.fid ho))
   · exact Sim.modObj e _ _ (by sim_side) (by sim_side)
 
 theorem Sim.fillBuf {l : List WsIn} (fuel : Nat) (e : EP) (i : Nat) : Sim x j l e l (fillBuf fuel e i).1 [] [] := by
@@ -107,13 +190,31 @@ theorem Sim.appRead {l : List WsIn} (e : EP) (h n : Nat) : Sim x j l e l (appRea
       exact s.tr (Sim.modObj e' _ _ (by sim_side) (by sim_side))
     · exact s
 
+/-- `poll_shutdown`: the write side closes; with an open queue a `Finish` is queued in the same step. -/
 theorem Sim.appShutdown {l : List WsIn} (e : EP) (h : Nat) : Sim x j l e l (appShutdown e h).1 [] [] := by
   unfold Mux.appShutdown
   split
   · exact Sim.refl l e
-  · split
+  · rename_i i o hh
+    have ho := handleObj_some hh
+    split
     · exact Sim.modObj e _ _ (by sim_side) (by sim_side)
-    · exact (Sim.modObj e _ _ (by sim_side) (by sim_side)).tr (Sim.enqFrame _ _ rfl rfl rfl)
+    · rename_i hfs
+      have hfs' : o.finishSent = false := by simpa using hfs
+      have g := Sim.modObj (x := x) (j := j) (l := l) e i (fun o => { o with finishSent := true, parked := false })
+        (by sim_side) (by sim_side)
+      by_cases hx : o.fid = x
+      · subst hx
+        cases hoc : e.outClosed with
+        | true =>
+          have : (e.modObj i (fun o => { o with finishSent := true, parked := false })).enqFrame (.finish o.fid) =
+              e.modObj i (fun o => { o with finishSent := true, parked := false }) := by
+            simp [EP.enqFrame, EP.enq, hoc]
+          simp only [this]
+          exact g
+        | false =>
+          exact Sim.finShutdown e i o _ ho rfl hfs' hoc (fun _ => rfl) (fun _ => rfl) (fun _ => rfl) (fun _ => rfl)
+      · exact g.tr (Sim.enqFrame _ _ rfl rfl rfl (by simp [isFin, hx]))
 
 theorem Sim.appDropStream {l : List WsIn} (e : EP) (h : Nat) : Sim x j l e l (appDropStream e h).1 [] [] := by
   unfold Mux.appDropStream
@@ -169,33 +270,85 @@ theorem Sim.appBindReq {l : List WsIn} (e : EP) (req : Nat) (bt : BindType) (hos
       by_cases hx : fid = x
       · subst hx
         refine Sim.one (AStep.draw (view fid j e l) (rng'.count fid) rng'.isEmpty (.bindRequested req)
-          (.frame (.bind fid bt port host)) hc1 hc2 (hc3 rfl) hfree hoc' (by intro i h; cases h)
-          rfl rfl) ?_ rfl rfl
-        simp [view, EP.enqFrame, EP.enq, hoc', lookup_insert_self, canAcc, canAccF, hfree]
+          (.frame (.bind fid bt port host)) hc1 hc2 (hc3 rfl) hfree hoc'
+          (Or.inr ⟨req, rfl, by simp [isBind]⟩)) ?_ rfl rfl
+        simp [view, EP.enqFrame, EP.enq, hoc', lookup_insert_self, canAcc, canAccF, hfree, bindHeld]
       · have g1 : Sim x j l e l { e with rng := rng', fallback := fb' } [] [] := Sim.rngStep e _ rng' hc1 hc2 rfl
         have g2 : Sim x j l { e with rng := rng', fallback := fb' } l
             { e with rng := rng', fallback := fb', flows := Mux.insert e.flows fid (.bindRequested req) } [] [] :=
           Sim.flows { e with rng := rng', fallback := fb' } (Mux.insert e.flows fid (.bindRequested req))
             (Or.inl (lookup_insert_ne _ _ _ _ (Ne.symm hx)))
-        exact (g1.tr g2).tr (Sim.enqFrame _ _ rfl rfl rfl)
+        exact (g1.tr g2).tr (Sim.enqFrame _ _ rfl rfl rfl rfl (by simp [isBind, hx]))
+
+/-- An update of one held bind request that keeps its id does not change which ids are held. -/
+theorem any_modify_fid (bs : List BindIn) (k : Nat) (f : BindIn → BindIn) (hf : ∀ b, (f b).fid = b.fid) :
+    (bs.modify k f).any (fun b => b.fid == x) = bs.any (fun b => b.fid == x) := by
+  induction bs generalizing k with
+  | nil => simp
+  | cons a r ih =>
+    cases k with
+    | zero => simp [hf]
+    | succ n => simp [ih n]
+
+/-- `next_bind_request` hands the oldest queued bind request to the application: it stays held. -/
+theorem bindHeld_bindNext (e : EP) (b : BindIn) (rest : List BindIn) (hq : e.bindq = b :: rest) :
+    bindHeld x { e with bindq := rest, held := e.held ++ [b] } = bindHeld x e := by
+  simp only [bindHeld, hq, List.any_cons, List.any_append, List.any_nil, Bool.or_false]
+  cases (b.fid == x) <;> cases rest.any (fun b => b.fid == x) <;> cases e.held.any (fun b => b.fid == x) <;> rfl
+
+/-- Held bind requests are updated without a change of their ids. -/
+theorem Sim.heldModify {l : List WsIn} (e : EP) (k : Nat) (f : BindIn → BindIn) (hf : ∀ b, (f b).fid = b.fid) :
+    Sim x j l e l { e with held := e.held.modify k f } [] [] := by
+  refine Sim.bhDrop e _ rfl ?_
+  simp only [bindHeld, any_modify_fid _ _ _ hf]
+  exact fun h => h
 
 theorem Sim.appBindNext {l : List WsIn} (e : EP) : Sim x j l e l (appBindNext e).1 [] [] := by
   unfold Mux.appBindNext
   split
   · exact Sim.refl l e
   · split
-    · sim_same
+    · rename_i b rest hq
+      refine Sim.bhDrop e _ rfl ?_
+      rw [bindHeld_bindNext e b rest hq]
+      exact fun h => h
     · split <;> exact Sim.refl l e
 
+theorem enq_held (e : EP) (m : Msg) : (e.enq m).held = e.held := by
+  unfold EP.enq; split <;> rfl
+
+/-- `BindRequest::reply`: accepting a held request with id `x` queues a `Finish x`. -/
 theorem Sim.appBindReply {l : List WsIn} (e : EP) (k : Nat) (a : Bool) : Sim x j l e l (appBindReply e k a).1 [] [] := by
   unfold Mux.appBindReply
   split
   · exact Sim.refl l e
-  · split
+  · rename_i b hb
+    split
     · exact Sim.refl l e
     · split
       · exact Sim.refl l e
-      · refine (Sim.enqFrame e _ ?_ ?_ ?_).tr (Sim.same rfl rfl rfl) <;> (cases a <;> rfl)
+      · rename_i hoc
+        have hoc' : e.outClosed = false := by simpa using hoc
+        have g1 : Sim x j l e l (e.enqFrame (if a = true then Frame.finish b.fid else Frame.reset b.fid)) [] [] := by
+          cases a with
+          | false => exact Sim.enqFrame e (.reset b.fid) rfl rfl rfl
+          | true =>
+            simp only [if_true]
+            by_cases hx : b.fid = x
+            · subst hx
+              have hbh : bindHeld b.fid e = true := by
+                have : e.held.any (fun c => c.fid == b.fid) = true :=
+                  List.any_eq_true.mpr ⟨b, List.mem_of_getElem? hb, by simp⟩
+                simp [bindHeld, this]
+              refine Sim.one (AStep.enqFinB (view b.fid j e l) hoc' hbh) ?_ rfl rfl
+              simp [view, EP.enqFrame, EP.enq, hoc', canAcc, bindHeld]
+            · exact Sim.enqFrame e (.finish b.fid) rfl rfl rfl (by simp [isFin, hx])
+        have g2 := Sim.heldModify (x := x) (j := j) (l := l)
+          (e.enqFrame (if a = true then Frame.finish b.fid else Frame.reset b.fid)) k
+          (fun b => { b with replied := true }) (fun _ => rfl)
+        rw [show (e.enqFrame (if a = true then Frame.finish b.fid else Frame.reset b.fid)).held = e.held from
+          enq_held _ _] at g2
+        exact g1.tr g2
 
 theorem Sim.appBindDrop {l : List WsIn} (e : EP) (k : Nat) : Sim x j l e l (appBindDrop e k).1 [] [] := by
   unfold Mux.appBindDrop
@@ -204,11 +357,11 @@ theorem Sim.appBindDrop {l : List WsIn} (e : EP) (k : Nat) : Sim x j l e l (appB
   · split
     · exact Sim.refl l e
     · simp only
+      have g : Sim x j l e l { e with held := e.held.modify k (fun b => { b with alive := false }) } [] [] :=
+        Sim.heldModify e k _ (fun _ => rfl)
       split
-      · sim_same
-      · have g : Sim x j l e l { e with held := e.held.modify k (fun b => { b with alive := false }) } [] [] := by
-          sim_same
-        exact g.tr (Sim.enqFrame _ (.reset _) rfl rfl rfl)
+      · exact g
+      · exact g.tr (Sim.enqFrame _ (.reset _) rfl rfl rfl)
 
 /-! ### Dropping the `Multiplexor` -/
 
@@ -218,28 +371,37 @@ theorem Sim.foldEnq {l : List WsIn} (bs : List BindIn) (e : EP) :
   | nil => exact Sim.refl l e
   | cons b rest ih => exact (Sim.enqFrame e _ rfl rfl rfl).tr (ih _)
 
+/-- The queued bind requests are forgotten (each was answered by a `Reset`). -/
+theorem Sim.clearBindq {l : List WsIn} (e : EP) :
+    Sim x j l e l { e with acceptq := [], dgramq := [], bindq := [] } [] [] := by
+  refine Sim.bhDrop e _ rfl ?_
+  simp only [bindHeld, List.any_nil, Bool.false_or]
+  intro h
+  rw [Bool.or_assoc, h, Bool.or_true]
+
 theorem Sim.appDropMux {l : List WsIn} (e : EP) : Sim x j l e l (appDropMux e).1 [] [] := by
   unfold Mux.appDropMux
   simp only
   have s1 : Sim x j l e l { e with muxAlive := false, droppedq := if e.dead then e.droppedq else e.droppedq ++ [0] } [] [] := by
     sim_same
-  exact (s1.tr (Sim.foldEnq e.bindq _)).tr (Sim.same rfl rfl rfl)
+  exact (s1.tr (Sim.foldEnq e.bindq _)).tr (Sim.clearBindq _)
 
 /-! ### Every application call -/
 
 /-- Every stimulus except a delivery: the view moves by small steps that hand nothing to the transport
     (the events of a call are `openDone` / `bindDone` at most) and accept nothing into object `j`; the
-    inbox is not touched. -/
-theorem Sim.opStep {l : List WsIn} (e : EP) (op : Mux.Op) (hc : isCall op = true) :
-    Sim x j l e l (opStep e op).1 (opStep e op).2.2 [] := by
+    inbox is not touched; the records are those of the call's successful write on flow `x`, if any. -/
+theorem SimX.opStep {l : List WsIn} (e : EP) (op : Mux.Op) (hc : isCall op = true) :
+    SimX x j l e l (opStep e op).1 (opStep e op).2.2 [] (xlOfWrote x (wroteBy e op (opStep e op).2.1)) := by
   cases op with
   | «open» req host port =>
+    refine Sim.toX ?_
     simp only [Mux.opStep]
     split
     · exact Sim.refl l e
     · exact Sim.openRound e _
   | accept => exact Sim.appAccept e
-  | write h d => exact Sim.appWrite e h d
+  | write h d => exact SimX.appWrite e h d
   | read h n => exact Sim.appRead e h n
   | shutdown h => exact Sim.appShutdown e h
   | dropStream h => exact Sim.appDropStream e h
